@@ -1,6 +1,7 @@
 import SlipVerif.Model.Num
 import SlipVerif.Model.Printer
 import SlipVerif.Model.PrinterPretty
+import SlipVerif.Model.Wire6
 import SlipVerif.Driver.Num
 import SlipVerif.Driver.Printer
 import SlipVerif.Driver.Util
